@@ -27,7 +27,7 @@ RULE = (
 )
 ASSUMPTIONS = [
     "lattice, not continuum: values between lattice points are not covered",
-    "relative slack 1e-9 on every inequality; negative pilots are outside the property",
+    "relative slack 1e-9 on every inequality; negative pilots are outside the property; the pilot alphabet holds a vanishing positive pilot (1e-15 A)",
     "noise enters only through numpy.random.normal inside battery.py (owned seam; any other numpy.random use raises)",
 ]
 CHUNK = 24
